@@ -122,7 +122,7 @@ def run(ctx):
         sp['opts']['ops'] = [first, {'op': 'P', 'g': 0, 'p': 0}, {'op': 'A', 'k': k, 'g': 0, 'p': 1}]
         specs.append(sp)
     # plants / CHP units with an own start date (and ramp profiles), set up repeatedly
-    pl = gen.gen_many_plants(ctx.seed, n // 5, dict(CFG, freqs=['h'], units=['h'], tzs=[None], T=(4, 8), p_unaligned_end=0.0, p_window_plant=0.8, p_profile=0.4, p_inflow=0.0), 'c10p_')
+    pl = gen.gen_many_plants(ctx.seed, n // 5, dict(CFG, freqs=['h'], units=['h'], tzs=[None], T=(4, 8), p_unaligned_end=0.0, p_window_plant=0.8, p_profile=0.7, p_inflow=0.0), 'c10p_')
     for sp in pl:
         rng = random.Random(str(sp['seed']) + '/ops')
         for a in sp['assets']:
@@ -131,6 +131,12 @@ def run(ctx):
         sp['opts']['grids'] = [g for g in grid_variants(sp, rng) if g['freq'] == sp['grid']['freq'] and g.get('tz') == sp['grid'].get('tz')]
         sp['opts']['ops'] = gen_ops(sp, rng, len(sp['opts']['grids']))
         sp['opts']['ops'] = [o for o in sp['opts']['ops'] if o['op'] not in ('S', 'F', 'J')]
+        other_unit = [i for i, g in enumerate(sp['opts']['grids']) if g.get('unit', 'h') != sp['grid'].get('unit', 'h')]
+        if other_unit and int(sp['id'].split('_')[-1]) % 2:
+            # the same objects on a grid with another main time unit and back (ramps may be given in "the main time unit of the grid")
+            k_ = [i for i, a in enumerate(sp['assets']) if a['kind'] in ('Plant', 'CHPAsset')][0]
+            sp['opts']['ops'] = [{'op': 'P', 'g': 0, 'p': 0}, {'op': 'P', 'g': other_unit[0], 'p': 0}, {'op': 'P', 'g': 0, 'p': 1},
+                                 {'op': 'A', 'k': k_, 'g': other_unit[0], 'p': 0}, {'op': 'A', 'k': k_, 'g': 0, 'p': 0}]
         specs.append(sp)
     # the user holds ONE frame of positional prices (numeric index) and uses it for split set-ups on several horizons of the same length
     fr = gen.gen_many(ctx.seed, n // 5, dict(CFG, p_coarse=0.0, p_periodic=0.0, freqs=['h'], tzs=[None], T=(6, 9), p_cap_dict=0.0, p_cap_key=0.0,
